@@ -443,6 +443,26 @@ class _Spelling(ast.NodeTransformer):
                         value=n.value.right), n)
     return n
 
+  @staticmethod
+  def _unreversed(it):
+    """reversed(x) as the iterable of a loop is x[::-1]"""
+    if isinstance(it, ast.Call) and isinstance(it.func, ast.Name) and \
+        it.func.id == 'reversed' and len(it.args) == 1 and not it.keywords:
+      return ast.copy_location(ast.Subscript(
+          value=it.args[0], slice=ast.Slice(
+              lower=None, upper=None, step=ast.UnaryOp(
+                  op=ast.USub(), operand=ast.Constant(value=1))),
+          ctx=ast.Load()), it)
+    return it
+
+  def visit_For(self, n):
+    n.iter = self._unreversed(n.iter)
+    return self.generic_visit(n)
+
+  def visit_comprehension(self, n):
+    n.iter = self._unreversed(n.iter)
+    return self.generic_visit(n)
+
   def visit_Call(self, n):
     self.generic_visit(n)
     # (A if c else B)(args) -> A(args) if c else B(args)
